@@ -20,8 +20,12 @@ def answer (cfg : Cfg) (s : St) (ws : List String) : Cfg × St × String :=
     | some p => (cfg, dropPeer cfg s p, "done")
     | none => (cfg, s, "bad-op")
   | ["dropent", p, e] => match p.toNat? with
-    | some p => (cfg, dropEntity cfg s p (parseEnt e), "done")
+    | some p => (cfg, dropEntities cfg s p (parseEnts e), "done")
     | none => (cfg, s, "bad-op")
+  | ["addent", p, e] => match p.toNat? with
+    | some p => (cfg, addEntity s p (parseEnt e), "done")
+    | none => (cfg, s, "bad-op")
+  | ["discover", _] => (cfg, s, "done")
   | ["subspass", p, e] => match p.toNat? with
     | some p => (cfg, subsPass s p (parseEnt e), "done")
     | none => (cfg, s, "bad-op")
